@@ -7,6 +7,10 @@ var (
 	// ErrKeyOutOfOrder means keys to create Trie are not ascendingly ordered.
 	ErrKeyOutOfOrder = errors.New("keys not ascending sorted")
 
+	// ErrTooLongStep means a set of keys share a run of bits that is too long
+	// to be recorded as a step, when inner prefixes are not stored.
+	ErrTooLongStep = errors.New("common key run too long for a step")
+
 	// ErrIncompatible means it is trying to unmarshal data from an incompatible
 	// version.
 	ErrIncompatible = errors.New("incompatible with marshaled data")
